@@ -22,6 +22,7 @@ from core import Ob
 import weave
 
 PROP = "C20"
+UNCOVERED = []
 
 
 def macro_scan():
@@ -40,9 +41,127 @@ def macro_scan():
     return ok1 and ok2 and not others, {"assert_arm": ok1, "empty_arm": ok2, "other_cfg_sites": others}
 
 
+# ---- generated: one always-panics obligation per `glam_assert!` SITE whose condition speaks about `self` or a
+# named argument (sites over internal values - other_len_sq_rcp, normalized, det, dot0, row(k) - are covered by
+# the hand-written representatives below).  Found by scanning the current source on every run.
+import props.c18 as c18
+HV = ["hv_sqrt", "hv_sin_cos", "hv_sin", "hv_tan", "hv_atan2", "hv_exp", "hv_powf", "hv_mul_add", "hv_div_euclid", "hv_rem_euclid"]
+
+
+def violate(expr, argtypes, N, n_of):
+    """-> (list of (var, replacement ctor) overrides, assume-text, description) or None"""
+    e = re.sub(r"\s+", " ", expr.strip())
+    e = re.sub(r',\s*".*$', "", e)
+    m = re.match(r"^(\w+)\.is_normalized\(\)$", e)
+    if m:
+        v = m.group(1)
+        ty = N if v == "self" else argtypes.get(v)
+        if ty in ("Quat", "DQuat"):
+            return [(v, "<%s>::from_xyzw(0.0, 0.0, 0.0, 0.0)" % ty)], "", "%s == 0 (not normalized)" % v
+        if ty:
+            return [(v, "<%s>::ZERO" % ty)], "", "%s == 0 (not normalized)" % v
+        return None
+    m = re.match(r"^self\.is_normalized\(\) && (\w+)\.is_normalized\(\)$", e)
+    if m and argtypes.get(m.group(1)):
+        ty = argtypes[m.group(1)]
+        z = "<%s>::from_xyzw(0.0, 0.0, 0.0, 0.0)" % ty if ty in ("Quat", "DQuat") else "<%s>::ZERO" % ty
+        return [(m.group(1), z)], "", "%s == 0 (not normalized)" % m.group(1)
+    m = re.match(r"^0\.0 <= (\w+)$", e)
+    if m and argtypes.get(m.group(1)) in ("f32", "f64"):
+        return [], "vk::assume(%s < 0.0);" % m.group(1), "%s < 0" % m.group(1)
+    m = re.match(r"^(\w+) <= (\w+)$", e)
+    if m and argtypes.get(m.group(1)) in ("f32", "f64") and argtypes.get(m.group(2)) in ("f32", "f64"):
+        return [], "vk::assume(%s > %s);" % (m.group(1), m.group(2)), "%s > %s" % (m.group(1), m.group(2))
+    m = re.match(r"^(\w+) > 0\.0$", e)
+    if m and argtypes.get(m.group(1)) in ("f32", "f64"):
+        return [], "vk::assume(!(%s > 0.0));" % m.group(1), "!(%s > 0)" % m.group(1)
+    m = re.match(r"^(\w+) > 0\.0 && (\w+) > 0\.0$", e)
+    if m and argtypes.get(m.group(1)) in ("f32", "f64") and argtypes.get(m.group(2)) in ("f32", "f64"):
+        return [], "vk::assume(!(%s > 0.0 && %s > 0.0));" % (m.group(1), m.group(2)), "a plane distance is not positive"
+    m = re.match(r"^(\w+)\.cmple\((\w+)\)\.all\(\)$", e)
+    if m and argtypes.get(m.group(1)) in n_of:
+        k = n_of[argtypes[m.group(1)]]
+        return [], "let li: usize = vk::any(); vk::assume(li < %d); vk::assume(%s.to_array()[li] > %s.to_array()[li]);" % (k, m.group(1), m.group(2)), "%s > %s in some lane" % (m.group(1), m.group(2))
+    m = re.match(r"^(\w+)\.cmpne\((\w+)::ZERO\)\.(any|all)\(\)$", e)
+    if m and argtypes.get(m.group(1)) in n_of:
+        if m.group(3) == "any":
+            return [(m.group(1), "<%s>::ZERO" % m.group(2))], "", "%s == 0" % m.group(1)
+        k = n_of[argtypes[m.group(1)]]
+        return [], "let li: usize = vk::any(); vk::assume(li < %d); vk::assume(%s.to_array()[li] == 0.0);" % (k, m.group(1)), "%s has a zero lane" % m.group(1)
+    return None
+
+
+def site_obligations(config, obs, uncovered):
+    backend = core.CONFIGS[config]["backend"]
+    n_of = {T.name: T.n for T in c18.FLOAT_VECS}
+    seen = 0
+    for (N, t, f, simd, nlanes, kind) in c18.types(backend):
+        if config.endswith("scalar") and not simd:
+            continue
+        w = 32 if t == "f32" else 64
+        src = open(os.path.join(weave.REPO, f)).read()
+        for am in re.finditer(r"\b(\w+) as (\w+)\b", " ".join(re.findall(r"^use crate::[^;]+;", src, re.M))):
+            if am.group(2) in c18.KNOWN_T:
+                src = re.sub(r"\b%s\b" % am.group(2), am.group(1), src)
+        for m in re.finditer(r"^    pub (?:const )?fn (\w+)(<[^>]*>)?\(\s*([^)]*?)\s*\)(?: -> ([^{]+?))? \{\n(.*?)^    \}", src, re.M | re.S):
+            fn, gen, args, body = m.group(1), m.group(2), re.sub(r"\s+", " ", m.group(3)), m.group(5)
+            sites = re.findall(r"glam_assert!\(((?:[^;]|\n)*?)\);", body)
+            if not sites or gen:
+                continue
+            parts = [a.strip() for a in args.split(",") if a.strip()] if args else []
+            recv, names, argtypes, exprs, ok = None, [], {}, {}, True
+            for a in parts:
+                if a in ("self", "mut self", "&self", "&mut self"):
+                    recv = a
+                    continue
+                pm = re.match(r"^(?:mut )?(\w+): (.+)$", a)
+                if not pm:
+                    ok = False
+                    break
+                ty = pm.group(2).strip()
+                e = c18.arg_expr(ty, N, t)
+                if e is None:
+                    ok = False
+                    break
+                names.append(pm.group(1))
+                argtypes[pm.group(1)] = ty.replace("&", "").replace("crate::", "").replace("Self", N)
+                exprs[pm.group(1)] = (e, ty.startswith("&"))
+            if not ok:
+                continue
+            for k_, site in enumerate(sites):
+                v = violate(site, argtypes, N, n_of)
+                if v is None:
+                    uncovered.append("%s::%s: glam_assert!(%s)" % (N, fn, re.sub(r"\s+", " ", site)[:80]))
+                    continue
+                over, assume, what = v
+                over = dict(over)
+                lines = []
+                for nm in names:
+                    e, isref = exprs[nm]
+                    if nm in over:
+                        lines.append("let %s = %s;" % (nm, over[nm]))
+                    else:
+                        lines.append("let %s = %s;" % (nm, e[1:] if isref else e))
+                selfv = over.get("self", "mk::<%s>()" % N)
+                call_args = ", ".join(("&" + nm) if exprs[nm][1] else nm for nm in names)
+                if recv:
+                    lines.append(("let mut s_ = %s;" if "mut" in recv else "let s_ = %s;") % selfv)
+                    lines.append(assume)
+                    lines.append("let _r = s_.%s(%s);" % (fn, call_args))
+                else:
+                    lines.append(assume)
+                    lines.append("let _r = <%s>::%s(%s);" % (N, fn, call_args))
+                seen += 1
+                obs.append(Ob("c20_%s_site_%s_%s_%d" % (config, N.lower(), fn, k_), PROP, " ".join(l for l in lines if l), fn="%s::%s" % (N, fn), kind="panic", panic=True, solver="cadical",
+                              stubs=["sse_hv"] + ["%s%d" % (u, w) for u in HV], cls="control", tier="quick" if (simd or t == "f32") else "thorough",
+                              desc="%s::%s: glam_assert!(%s) - the call never returns when %s (every other argument arbitrary)" % (N, fn, re.sub(r"\s+", " ", site)[:70], what)))
+    return seen
+
+
 def build(config, tier):
     obs = []
     cfgname = config
+    site_obligations(config, obs, UNCOVERED)
     P = lambda name, body, fn, desc, stubs=("sse",), tier="quick": obs.append(
         Ob("c20_%s_%s" % (cfgname, name), PROP, body, fn=fn, kind="panic", panic=True, solver="cadical", stubs=list(stubs), cls="control", tier=tier, desc=desc))
     # a vector that is certainly not normalized: lanes powers of two with |v|^2 >= 4 or == 0.25
@@ -109,14 +228,16 @@ def run(s):
     ok, scan = macro_scan()
     if not ok:
         s.undecided.append({"ob": "macro_scan", "config": "*", "why": "src/macros.rs no longer has the expected shape (glam_assert! = assert! | nothing, no other cfg site): %s" % scan})
+    del UNCOVERED[:]
     for cfg in ("assert", "assert_scalar"):
         s.run_config(cfg, [], build(cfg, s.tier))
     s.assumptions += [
         "A7: 'assertions never change a returned value' rests on the syntactic frame scan of src/macros.rs (glam_assert! expands to assert!(..) or to nothing, no other cfg on the assert features) plus re-discharged lattice value obligations",
+        "generated site obligations: one always-panics obligation per glam_assert! site whose condition is about self or a named argument (scanned from the current source); non-normalized operands are represented by the zero vector / zero quaternion",
         "non-unit inputs are represented by power-of-two lanes with |v|^2 in {1/4, 4, 16} (exactly outside 1 +- 2e-4)",
         "A5: sqrt / sin_cos uninterpreted where reached",
     ]
     return s.finish(level_note="documented violations always panic; assertion macro frame scan + re-discharged value obligations; exact producers satisfy the asserted preconditions",
-                    trusted_base=["Kani 0.68 / CBMC 6.11 / CaDiCaL", "model/sse.rs"], extra_cov={"macro_scan": scan},
+                    trusted_base=["Kani 0.68 / CBMC 6.11 / CaDiCaL", "model/sse.rs"], extra_cov={"macro_scan": scan, "assertion_sites_without_generated_obligation": sorted(set(UNCOVERED))},
                     not_decided=["chains of up to 12 operations stay within the 2e-4 tolerance (accumulated rounding)", "normalize / slerp / rotate_towards / any_orthonormal_* outputs pass is_normalized for arbitrary inputs",
-                                 "every one of the 108 assertion sites individually (one representative per kind of site is discharged)"])
+                                 "assertion sites over internal values (other_len_sq_rcp, normalized, det, dot0, row(k)): one hand-written representative per kind; listed per run under assertion_sites_without_generated_obligation"])
